@@ -166,8 +166,12 @@ func (h *killedHandler) handleRestart() {
 	} else {
 		h.ctx.restarting = nil
 		atomic.StoreInt32(&h.ctx.state, running)
-		h.ctx.tell(true, h.ctx.ref, new(vivid.OnLaunch))
 		h.ctx.mailbox.Resume()
+		// 新实例必须先于任何其他消息收到 OnLaunch：此处正处于 Actor 自身的消息处理协程中（邮箱处理权仍由当前协程持有），
+		// 因此直接处理而不是入队。若入队，已排在重启消息之后的系统消息（如 Kill、再次 Restart）会先于 OnLaunch 被新实例处理，
+		// 新实例将在从未收到 OnLaunch 的情况下收到 OnKill / OnKilled，而 OnLaunch 最终成为死信。
+		// 须在 Resume 之后处理：OnLaunch 中再次故障时 failed() 会重新暂停邮箱，不应被随后的 Resume 解除。
+		h.ctx.HandleEnvelop(mailbox.NewEnvelop(true, h.ctx.ref, h.ctx.ref, new(vivid.OnLaunch)))
 
 		// 通知事件流
 		eventStream := h.ctx.EventStream()
